@@ -183,6 +183,44 @@ class Ctx:
     def note(self, s):
         self.notes.append(s)
 
+    def spectral_form(self, name, signs, det_minus=False):
+        """a symmetric matrix declared through its spectral decomposition  B = U diag(e) U^T :
+        e strictly ascending with the given signs (the order numpy.linalg.eigh returns), U orthogonal, parametrised as a
+        product of plane rotations (times a reflection if det_minus).  Returns (B, e, U).  In symbolic mode the triple is
+        registered so that the eigh contract stub can return (e, U) for B."""
+        n = len(signs)
+        neg = [i for i, s_ in enumerate(signs) if s_ < 0]
+        pos = [i for i, s_ in enumerate(signs) if s_ > 0]
+        assert signs == sorted(signs), "ascending eigenvalues: negative signs first"
+
+        def samp(r):
+            m = np.sort(r.uniform(0.4, 2.5, n))
+            vals = [-x for x in sorted(m[:len(neg)], reverse=True)] + list(np.sort(r.uniform(0.4, 2.5, len(pos))))
+            return np.array(vals)
+        e = self.reals(name + 'e', (n,), samp)
+        for i in range(n):
+            self.assume(e[i], '<' if signs[i] < 0 else '>', 0)
+        for i in range(n - 1):
+            self.assume(e[i], '<', e[i + 1])
+        pairs = [(i, j) for i in range(n) for j in range(i + 1, n)]
+        th = self.reals(name + 'th', (len(pairs),), lambda r: r.uniform(-3, 3, len(pairs)))
+        U = self.const(np.identity(n))
+        for k_, (i, j) in enumerate(pairs):
+            c, s_ = np.cos(th[k_]), np.sin(th[k_])
+            G = self.const(np.identity(n))
+            G[i, i], G[j, j], G[i, j], G[j, i] = c, c, -s_, s_
+            U = U @ G
+        if det_minus:
+            R = self.const(np.identity(n)); R[0, 0] = -1 * R[0, 0]
+            U = U @ R
+        D = self.const(np.zeros((n, n)))
+        for i in range(n):
+            D[i, i] = e[i]
+        B = U @ D @ U.T
+        if self.mode == 'sym':
+            self.__dict__.setdefault('eigh_table', []).append((np.array(B, copy=True), np.array(e, copy=True), np.array(U, copy=True)))
+        return B, e, U
+
     def arg_of(self, value, fname):
         """argument x of value = fname(x) (sym: looked up from the function symbol; num: the inverse function)"""
         inv = {'arccosh': np.cosh, 'arccos': np.cos, 'arcsin': np.sin, 'arcsinh': np.sinh, 'arctan': np.tan}[fname]
@@ -308,7 +346,16 @@ def make_eigh_stub(ctx):
         if not _is_obj(a):
             return _ORIG['eigh'](a, *args, **kw)
         if not _all_const(a):
-            raise Undecided("eigh stub: symbolic matrices are not under contract (only constant forms)")
+            # contract of numpy.linalg.eigh in REVERSE solved form: the contract declared its input as
+            # B = U diag(e) U^T for symbolic ascending eigenvalues e and a parametrised orthogonal U (every output
+            # (e, U) of eigh on every symmetric matrix arises this way); the stub returns that (e, U)
+            a_ = np.asarray(a, dtype=object)
+            for (B_, e_, U_) in getattr(ctx, 'eigh_table', []):
+                if B_.shape == a_.shape and all(((x - y).is_zero_nf() if isinstance(x - y, Alg) else (x - y) == 0)
+                                                for x, y in zip(a_.ravel(), B_.ravel())):
+                    ctx.stub_uses.append("numpy.linalg.eigh (reverse solved form: input declared as U diag(e) U^T, e ascending, U orthogonal)")
+                    return np.array(e_, copy=True), np.array(U_, copy=True)
+            raise Undecided("eigh stub: symbolic matrix without a declared spectral decomposition")
         ev, U = _ORIG['eigh'](_to_float_array(a), *args, **kw)
         # exact only if the decomposition is representable: check U^T U = 1 and U diag(ev) U^T = a in floats to 1e-14
         if np.max(np.abs(U @ np.diag(ev) @ U.T - _to_float_array(a))) > 1e-14 or np.max(np.abs(U.T @ U - np.eye(len(ev)))) > 1e-14:
@@ -352,7 +399,7 @@ def make_kernel_stub(ctx):
                 w.record_path(detP, '!=', 'kernel stub pivot')
             # the external is a function: the same matrix (same normal form) gets the same basis symbols
             from .alg import _poly_key
-            ckey = tuple((_poly_key(e.num), _poly_key(e.den)) if isinstance(e, Alg) else e for e in A.ravel())
+            ckey = tuple((lambda c_: (_poly_key(c_.num), _poly_key(c_.den)))(e.canon()) if isinstance(e, Alg) else e for e in A.ravel())
             if ckey in cache:
                 Phi = cache[ckey]
             else:
